@@ -26,7 +26,7 @@ NSH = 16
 
 def plan(tier, seed):
     jobs = [{"name": "directed", "spec": {"kind": "directed"}}]
-    n = 200000 if tier == "quick" else 2000000
+    n = 200000 if tier == "quick" else 8000000
     for i in range(NSH):
         jobs.append({"name": "rand%02d" % i, "spec": {"kind": "rand", "n": n // NSH}})
     return jobs
